@@ -74,6 +74,8 @@ func writeEvidence(cfg checkCfg, b *Built, ag *agg, corpus map[string][3]int, si
 		"starvation_guards":   ag.stats.StarveGuards,
 		"task_stall":          ag.stats.Naps,
 		"channel_operations":  ag.stats.ChanOps,
+		"select_statements":   ag.stats.Selects,
+		"timers_fired":        ag.stats.TimersFired,
 		"leaked_library_goroutines": ag.stats.LeakedTasks,
 		"note":                "kinds with 0 sites in the tree under test cannot fire; see seams_rewritten",
 	}
